@@ -8,8 +8,8 @@ let rec int_of_pos = function XH -> 1 | XO p -> 2 * int_of_pos p | XI p -> 2 * i
 let int_of_n = function N0 -> 0 | Npos p -> int_of_pos p
 
 (* byte <-> int through the extracted Byte.of_N / Byte.to_N, tabulated once *)
-let byte_tab = Array.init 256 (fun i -> match of_N (n_of_int i) with Some b -> b | None -> failwith "byte")
-let int_of_byte b = int_of_n (to_N b)
+let byte_tab = Array.init 256 (fun i -> match verif_byte_of_N (n_of_int i) with Some b -> b | None -> failwith "byte")
+let int_of_byte b = int_of_n (verif_byte_to_N b)
 
 let hexval c = match c with
   | '0'..'9' -> Char.code c - 48 | 'a'..'f' -> Char.code c - 87 | 'A'..'F' -> Char.code c - 55
